@@ -13,6 +13,11 @@ pinned snapshot, everything else is byte-identical after ast.unparse):
   six        per file: six.iteritems(d) -> d.items(), itervalues/iterkeys
              likewise
   super      per file: super(Cls, self) -> super()
+  else-wrap  if C: ...; return/raise/continue/break   (no else) followed by
+             statements S in the same block  ->  if C: ... else: S
+  else-unwrap if C: ...jump else: S      ->  if C: ...jump ; S
+  ret-temp   return <call or compound expr>  ->  _rv = <expr>; return _rv
+  yoda       x == CONST / x != CONST     ->  CONST == x / CONST != x
 
 For every variant all property checks run; a changed set of unlisted findings
 or an analysis error is brittleness of the checker.
@@ -52,6 +57,9 @@ def _pure(e) -> bool:
     return False
 
 
+JUMPS = (ast.Return, ast.Raise, ast.Continue, ast.Break)
+
+
 def sites(tree, kinds):
     """[(kind, index)] - index is the position in ast.walk order."""
     out = []
@@ -65,13 +73,77 @@ def sites(tree, kinds):
         if 'noop' in kinds and isinstance(n, (ast.FunctionDef,
                                               ast.AsyncFunctionDef)):
             out.append(('noop', i))
+        if 'else-wrap' in kinds or 'else-unwrap' in kinds:
+            for field in ('body', 'orelse', 'finalbody'):
+                blk = getattr(n, field, None)
+                if not (isinstance(blk, list) and blk and
+                        isinstance(blk[0], ast.stmt)):
+                    continue
+                for j, st in enumerate(blk):
+                    if not (isinstance(st, ast.If) and st.body and
+                            isinstance(st.body[-1], JUMPS)):
+                        continue
+                    if 'else-wrap' in kinds and not st.orelse and \
+                            j + 1 < len(blk):
+                        out.append(('else-wrap', (i, field, j)))
+                    if 'else-unwrap' in kinds and st.orelse and not (
+                            len(st.orelse) == 1 and
+                            isinstance(st.orelse[0], ast.If)):
+                        out.append(('else-unwrap', (i, field, j)))
+        if 'ret-temp' in kinds and isinstance(n, ast.Return) and \
+                n.value is not None and not isinstance(
+                    n.value, (ast.Name, ast.Constant)):
+            out.append(('ret-temp', i))
+        if 'yoda' in kinds and isinstance(n, ast.Compare) and \
+                len(n.ops) == 1 and isinstance(n.ops[0], (ast.Eq, ast.NotEq)) \
+                and isinstance(n.comparators[0], ast.Constant) and \
+                n.comparators[0].value is not None and _pure(n.left) and \
+                not isinstance(n.left, ast.Constant):
+            out.append(('yoda', i))
     return out
 
 
+def _replace_stmt(tree, old, new_list):
+    for n in ast.walk(tree):
+        for field in ('body', 'orelse', 'finalbody'):
+            blk = getattr(n, field, None)
+            if isinstance(blk, list) and old in blk:
+                k = blk.index(old)
+                blk[k:k + 1] = new_list
+                return True
+    return False
+
+
 def transform(tree, kind, index):
+    sub = None
+    if isinstance(index, (tuple, list)):
+        index, field, j = index
+        sub = (field, j)
     for i, n in enumerate(ast.walk(tree)):
         if i != index:
             continue
+        if kind == 'else-wrap':
+            blk = getattr(n, sub[0])
+            st = blk[sub[1]]
+            st.orelse = blk[sub[1] + 1:]
+            del blk[sub[1] + 1:]
+            return ast.fix_missing_locations(tree)
+        if kind == 'else-unwrap':
+            blk = getattr(n, sub[0])
+            st = blk[sub[1]]
+            rest, st.orelse = st.orelse, []
+            blk[sub[1] + 1:sub[1] + 1] = rest
+            return ast.fix_missing_locations(tree)
+        if kind == 'ret-temp':
+            tmp = ast.Assign(targets=[ast.Name(id='_rv', ctx=ast.Store())],
+                             value=n.value)
+            new = ast.Return(value=ast.Name(id='_rv', ctx=ast.Load()))
+            if not _replace_stmt(tree, n, [tmp, new]):
+                return None
+            return ast.fix_missing_locations(tree)
+        if kind == 'yoda':
+            n.left, n.comparators = n.comparators[0], [n.left]
+            return ast.fix_missing_locations(tree)
         if kind == 'neg-if':
             n.test = ast.UnaryOp(op=ast.Not(), operand=n.test)
             n.body, n.orelse = n.orelse, n.body
@@ -171,11 +243,14 @@ def run_one(args):
         got = verdicts(root, props)
         diff = {p: got[p] for p in props if got[p] != base[p]}
         line = 0
-        if idx >= 0:
+        widx = idx[0] if isinstance(idx, (tuple, list)) else idx
+        if widx >= 0:
             for i, n in enumerate(ast.walk(ast.parse(open(os.path.join(
                     PRISTINE, rel)).read()))):
-                if i == idx:
+                if i == widx:
                     line = getattr(n, 'lineno', 0)
+                    if isinstance(idx, (tuple, list)):
+                        line = getattr(n, idx[1])[idx[2]].lineno
         return {'target': '%s:%d %s' % (rel, line, kind), 'diff': diff}
     finally:
         shutil.rmtree(tmp, ignore_errors=True)
